@@ -1,6 +1,6 @@
 (** reorder_dendrogram (model in Model/Cuts.v, shared with C08) keeps a dendrogram valid when no merge is lower than
     the merges that created its children — and only then.  Property C07. *)
-From SKN Require Import Base.Util Model.Dendrogram Model.Cuts Model.Hierarchy Proofs.CutsProofs Proofs.HierarchyBase.
+From SKN Require Import Base.Util Model.Dendrogram Model.Cuts Model.Hierarchy Proofs.DendroBase Proofs.HierarchyBase.
 From Coq Require Import Permutation Sorted Lia QArith Lqa.
 Close Scope Q_scope.
 
